@@ -184,6 +184,11 @@ pub fn catch<R>(f: impl FnOnce() -> R) -> Result<R, PanicInfo> {
 /// Runs `f` in a brand-new OS thread with a large stack: thread-local slot table, simulator
 /// knobs and named-slot interner all start from zero.
 pub fn in_fresh_thread<R: Send + 'static>(f: impl FnOnce() -> R + Send + 'static) -> R {
+    try_in_fresh_thread(f).expect("run thread must not unwind (use exec::catch inside)")
+}
+
+/// like `in_fresh_thread`, but a panic of the run thread (a harness panic) is returned as Err
+pub fn try_in_fresh_thread<R: Send + 'static>(f: impl FnOnce() -> R + Send + 'static) -> Result<R, ()> {
     let want = WANT_BT.with(|w| w.get());
     std::thread::Builder::new()
         .stack_size(256 << 20)
@@ -193,7 +198,7 @@ pub fn in_fresh_thread<R: Send + 'static>(f: impl FnOnce() -> R + Send + 'static
         })
         .expect("spawn")
         .join()
-        .expect("run thread must not unwind (use exec::catch inside)")
+        .map_err(|_| ())
 }
 
 #[derive(Clone, Debug, Default, PartialEq, Eq)]
